@@ -142,8 +142,10 @@ void preprocess_verif_mutex_lock(void *m) {
 void preprocess_verif_mutex_unlock(void *m) {
   if (!G.active || tls_tid < 0 || !G.fine) return;
   int id;
-  { std::lock_guard<std::mutex> lk(G.mu); id = G.mutex_index(m); }
-  park(K_UNLOCK, m, "U" + std::to_string(id));
+  // the real unlock has already happened (scope end): the mutex is free from now on, and this is a
+  // plain scheduling point, so that code placed between the unlock and the post can be interleaved
+  { std::lock_guard<std::mutex> lk(G.mu); id = G.mutex_index(m); G.held[id] = false; }
+  park(K_YIELD, m, "U" + std::to_string(id));
 }
 void preprocess_verif_yield(const char *where) {
   if (!G.active || tls_tid < 0 || !G.fine) return;
@@ -225,6 +227,15 @@ struct Scenario {
   bool fine;
   std::string mode;
   long limit;
+  std::vector<std::string> strs(const std::string &k) const {
+    std::vector<std::string> out;
+    std::map<std::string, std::string>::const_iterator i = kv.find(k);
+    if (i == kv.end() || i->second.empty()) return out;
+    std::istringstream is(i->second);
+    std::string t;
+    while (std::getline(is, t, ',')) out.push_back(t);
+    return out;
+  }
   std::vector<long> list(const std::string &k) const {
     std::vector<long> out;
     std::map<std::string, std::string>::const_iterator i = kv.find(k);
@@ -300,24 +311,40 @@ bool run_once(const Scenario &sc, const std::function<int(size_t, unsigned)> &ch
     util::PCQueue<Item> *q = pcq.get();
     for (size_t p = 0; p < prod.size(); ++p) {
       long n = prod[p];
-      bodies.push_back([q, p, n] { for (long i = 0; i < n; ++i) q->Produce(Item((int)(p * 1000 + i + 1))); });
+      if (sc.num("swap", 0)) {
+        bodies.push_back([q, p, n] { for (long i = 0; i < n; ++i) { Item it((int)(p * 1000000 + i + 1)); q->ProduceSwap(it); } });
+      } else {
+        bodies.push_back([q, p, n] { for (long i = 0; i < n; ++i) q->Produce(Item((int)(p * 1000000 + i + 1))); });
+      }
     }
     for (size_t c = 0; c < cons.size(); ++c) {
       long n = cons[c];
       std::vector<int> *g = &got[c];
-      bodies.push_back([q, n, g] { for (long i = 0; i < n; ++i) { Item o; q->Consume(o); g->push_back(o.v); } });
+      if (sc.num("swap", 0)) {
+        bodies.push_back([q, n, g] { for (long i = 0; i < n; ++i) { Item o; q->ConsumeSwap(o); g->push_back(o.v); } });
+      } else {
+        bodies.push_back([q, n, g] { for (long i = 0; i < n; ++i) { Item o; q->Consume(o); g->push_back(o.v); } });
+      }
     }
   } else if (sc.kind == "ring") {
-    std::vector<long> writes = sc.list("writes");
+    std::vector<std::string> writes = sc.strs("writes");
     std::string *f = &file; std::vector<size_t> *ws = &wsizes; int *fl = &flushes; bool *jd = &joined;
     bodies.push_back([writes, f, ws, fl, jd] {
       {
         util::ThreadedBufferedStream<MockWriter> s(f, ws, fl);
         std::string buf;
         for (size_t w = 0; w < writes.size(); ++w) {
-          buf.resize(writes[w]);
-          for (size_t j = 0; j < buf.size(); ++j) buf[j] = (char)pattern(w, j);
-          s.write(buf.data(), buf.size());
+          if (writes[w][0] == 'p') {
+            // operator<< of a number with the given count of decimal digits ("123456789012...")
+            int nd = atoi(writes[w].c_str() + 1);
+            uint64_t v = 0;
+            for (int d = 0; d < nd; ++d) v = v * 10 + (uint64_t)("1234567890123456789"[d] - '0');
+            s << v;
+          } else {
+            buf.resize(atol(writes[w].c_str()));
+            for (size_t j = 0; j < buf.size(); ++j) buf[j] = (char)pattern(w, j);
+            s.write(buf.data(), buf.size());
+          }
         }
       }
       *jd = true;
